@@ -540,7 +540,7 @@ var profCrud = &hProfile{name: "crud", cfg: gen.Core, weights: map[string]int{
 	"findOneAndDelete": 3, "findOneAndReplace": 3, "findOneAndUpdate": 4, "bulkWrite": 5,
 	"createIndex": 3, "createIndexes": 1, "dropIndex": 1, "dropIndexKey": 1, "dropIndexes": 1, "listIndexes": 1,
 	"createColl": 1, "dropColl": 1, "dropDB": 1, "listColls": 1, "listDBs": 1,
-}, nss: allNS, docGen: defaultDocGen, idPool: simpleIDs, tinyVals: collideVals}
+}, nss: allNS, docGen: defaultDocGen, idPool: simpleIDs, tinyVals: collideVals, bigInserts: true}
 
 var propC01 = regHistory("C01", "history", profCrud, func() []hOracle { return []hOracle{newOracleModel()} }, 10, 40, func(r *hRun) bool {
 	o := r.oracles[0].(*oracleModel)
